@@ -280,5 +280,38 @@ class VNet(V):
         self.f = {}
         self.inst = {}  # instance attributes installed by freeze(): name -> V
         self.frozen_flag = None  # z3 Bool: has instance attribute "frozen"
-        self.shadow = None  # SetId over method-name string ids: methods shadowed by `frozen`
+        self.shadow = Shadow("net")  # method name -> Bool: instance attribute shadows the method with `frozen`
         self.warned = z3.BoolVal(False)
+
+
+class Shadow:
+    """Which method names of an instance are shadowed by exception.frozen: name -> z3 Bool."""
+
+    def __init__(self, base, symbolic=True):
+        self.base = base
+        self.symbolic = symbolic
+        self.m = {}
+
+    def of(self, name):
+        if name not in self.m:
+            # deterministic name: the same symbolic flag whoever asks first (a snapshot or the net)
+            self.m[name] = z3.Bool("shadow_%s_%s" % (self.base, name)) if self.symbolic else z3.BoolVal(False)
+        return self.m[name]
+
+    def set(self, name):
+        self.m[name] = z3.BoolVal(True)
+
+    def snapshot(self):
+        s = Shadow(self.base, self.symbolic)
+        s.m = dict(self.m)
+        s.parent = self
+        return s
+
+    def any(self):
+        """Some method is shadowed (over every name the live instance has been asked about so far)."""
+        names = set(self.m)
+        p = getattr(self, "parent", None)
+        while p is not None:
+            names |= set(p.m)
+            p = getattr(p, "parent", None)
+        return z3.Or([self.of("*")] + [self.of(n) for n in sorted(names)])
